@@ -302,8 +302,20 @@ class Framer(tasking.Tasker):
                                              value=tag,
                                              human=human,
                                              count=count )
+            # a moot that (directly or through other moots) clones itself
+            # would be cloned without end
+            framer = self
+            while framer is not None:
+                if getattr(framer, 'cloned', None) is original or framer is original:
+                    raise excepting.ResolveError("Recursive clone of moot framer",
+                                                 name=original.name,
+                                                 value=self.name,
+                                                 human=human,
+                                                 count=count )
+                framer = framer.main.framer if (not framer.original and framer.main) else None
             name = "_".join((self.surname, tag))  # replace name with full name
             clone = original.clone(name=name, tag=tag, schedule=schedule)
+            clone.cloned = original  # moot framer this clone was made from
             self.auxes[tag] = clone
 
             # inode is new (aux verb clone via)  clone.inode is old (framer moot via)
